@@ -100,6 +100,13 @@ func storylineRuneCase(rng *rand.Rand) *input {
 // set, the main file, the -I list, the include clauses and the generator's
 // expectations alike.
 func percentNames(rng *rand.Rand, in *input) *input {
+	for _, t := range in.Files {
+		for _, l := range strings.Split(t, "\n") {
+			if tl := strings.TrimLeft(l, " \t"); strings.HasPrefix(tl, "include ") && strings.Contains(tl, "~") {
+				return in // names built from parameters cannot be renamed consistently
+			}
+		}
+	}
 	dirMap := map[string]string{"lib": "li%sb", "lib2": "lib%d2", "etc": "100%etc", "sub": "su%vb", "conf": "conf%20x", "adir": "a%sdir", "d": "d%"}
 	ren := func(p string) string {
 		if p == "" || p == "." {
@@ -116,7 +123,7 @@ func percentNames(rng *rand.Rand, in *input) *input {
 		return strings.Join(cs, "/")
 	}
 	out := &input{Files: map[string]string{}, Main: ren(in.Main), Defines: in.Defines, Stream: in.Stream, Fault: in.Fault + "+percent",
-		HasExpect: in.HasExpect, ExpectCls: in.ExpectCls}
+		HasExpect: in.HasExpect, ExpectCls: in.ExpectCls, ExpectAccept: in.ExpectAccept}
 	for _, d := range in.Dirs {
 		out.Dirs = append(out.Dirs, ren(d))
 	}
